@@ -7,7 +7,8 @@ ASSUME = [
     "modelled, not verified: intervaltree.IntervalTree.overlap (half-open intersection), list.sort/sorted stability, math.ceil on Fraction/float",
     "exact mode (Fraction inputs) compares layers item by item with the model; float mode judges the structural predicates only (capacity with relative slack 1e-9)",
 ]
-RULE04 = ("Distributor.distribute called directly (layerWidth None/0/tight/roomy, density in (0,1], all three algorithms) and through Force.compute; "
+RULE04 = ("Distributor.distribute called directly (layerWidth None/0/tight/roomy, density in (0,1], all three algorithms), through Force.compute on fresh labels, and after every compute of "
+          "random engine histories (re-compute, re-configure, nodes re-registered or handed to a fresh engine while carrying stubs of an earlier layout); "
           "labels with ties, identical positions, labels wider than a layer, 1-2 labels; non-trivial = more than one layer; distinct by canonical driver line")
 RULE06 = ("histories of new/nodes/options/compute/re-compute/stale-nodes-into-fresh-engine/permuted-input/second-label-set operations on real Force objects; after every compute the result "
           "is compared with the model applied to the accumulated options and current labels; non-trivial = more than one layer or a re-used engine; distinct by canonical line")
@@ -23,8 +24,8 @@ def dist_opts(rng, labels):
 
 def run_c04(tier, seed, rep, only_prop=False, scale=1):
     import impl_layout as I
-    n1, n2 = (700, 250) if tier == "quick" else (12000, 4000)
-    n1, n2 = n1 * scale, n2 * scale
+    n1, n2, n3 = (700, 250, 120) if tier == "quick" else (12000, 4000, 2500)
+    n1, n2, n3 = n1 * scale, n2 * scale, n3 * scale
     cs = []
     rng = rng_for(seed, "c04-dist")
     for k in range(n1):
@@ -43,6 +44,19 @@ def run_c04(tier, seed, rep, only_prop=False, scale=1):
             rep.count("recursion-error(F3)")
             continue
         cs.append((fl, {"kind": "force", "labels": labels, "opts": o, "mode": mode}))
+    # the layering must be exact after EVERY layout, also of nodes that carry stubs / layer numbers of an earlier layout
+    rng = rng_for(seed, "c04-history")
+    for k in range(n3):
+        ops, labelsA, o = gen_history(rng, tier)
+        mode = "exact" if k % 2 else "float"
+        try:
+            res = I.run_history(ops, mode)
+        except RecursionError:
+            rep.count("recursion-error(F3)")
+            continue
+        for j, (fl, placed, acc, labs) in enumerate(res):
+            cs.append((fl, {"kind": "history", "ops": ops, "mode": mode, "compute_no": j, "acc": acc, "labels": labs, "opts": acc}))
+            rep.count("history compute_no=%d" % min(j, 4))
     answers = drive([c[0] for c in cs])
     for (line, meta), ans in zip(cs, answers):
         f = fields(ans)
@@ -77,7 +91,21 @@ def gen_history(rng, tier):
         elif c < 0.75:
             ops += [("empty-nodes",), ("compute",)]
         elif c < 0.9:
-            ops += [("new", dict(o), "keep-nodes"), ("compute",)]
+            # nodes that carry layer numbers / stubs of the earlier layout go into a fresh engine: same options, or a different
+            # configuration (so that labels move to nearer / farther layers than the ones their stale links describe)
+            o2 = dict(o) if rng.random() < 0.4 else G.gen_force_opts(rng, labelsA, span)
+            ops += [("new", o2, "keep-nodes")]
+            if rng.random() < 0.3:
+                d = G.gen_force_opts(rng, labelsA, span)
+                ops += [("options", {k: d[k] for k in rng.sample(sorted(d), min(len(d), rng.randint(1, 2)))})]
+            ops += [("compute",)]
+        elif c < 0.95:
+            # the same node objects registered again on the same engine, possibly re-configured before the next layout
+            ops += [("renodes",)]
+            if rng.random() < 0.6:
+                d = G.gen_force_opts(rng, labelsA, span)
+                ops += [("options", {k: d[k] for k in rng.sample(sorted(d), min(len(d), rng.randint(1, 2)))})]
+            ops += [("compute",)]
         else:
             ops += [("nodes", labelsA), ("compute",)]
     return ops, labelsA, o
